@@ -224,6 +224,11 @@ theorem C12_panic_closes (cf : Server.Conf) (now : Nat) (fault : Option Fault) (
   · rfl
   · cases cmd <;> rfl
 
+/-- The panic result reaches the loop's ending because the deferred function of
+    `DefaultServer.Loop` recovers and — unconditionally, as a direct statement of the recover
+    block — calls `abort(conns, …)`; regenerated from server/default.go on every run. -/
+theorem C12_recover_aborts : Gen.loopDeferRecoverAborts = true := by decide
+
 /-- The wrapper as a whole, for the single-key commands: the regenerated facts satisfy the
     hypotheses of `C12_single`. -/
 theorem C12_locked_step_single (bits : Nat) (wrapped : Cmd → OProg (HRes Unit)) (hw : ∀ c, NoLocks (wrapped c))
